@@ -146,4 +146,23 @@ def rrCheck (requests : List Request) (survivors : List (List Role)) (leaderRole
     some "role-less actor not on a least-loaded survivor"
   else none
 
+/-! ### survivors of an unreachable target + redistribution over them -/
+
+/-- indices of the peers whose endpoint differs from the target's (host OR port) -/
+def specSurvivors (peers : List Peer) (t : Nat) : List Nat :=
+  match peers[t]? with
+  | none => []
+  | some tg => (List.range peers.length).filter (fun i =>
+      match peers[i]? with
+      | some p => p.host != tg.host || p.port != tg.port
+      | none => false)
+
+def rxCheck (requests : List Request) (peers : List Peer) (t : Nat) (leaderRoles : List Role)
+    (sv : List Nat) (o : RROut) : Option String :=
+  let want := specSurvivors peers t
+  if sv ≠ want then
+    some "survivors are not exactly the peers whose host:port differs from the unreachable target's"
+  else
+    rrCheck requests (want.map (fun i => ((peers[i]?).map (·.roles)).getD [])) leaderRoles o
+
 end GoaktVerif.Spec.C32
